@@ -36,6 +36,11 @@ class EngineC14(HistEngine):
                 fmt = ch.choice(FMTS, "newfmt")
                 ops.append({"op": "new_compiler", "fmt": fmt})
                 insts.append(fmt)
+                usable = [n for n in subs if SUB_CALLERS.get(n)]
+                if usable and ch.chance(1, 2, "call-after-new-instance"):
+                    # routines registered at run time are still there after another instance was constructed
+                    n_ = ch.choice(usable, "can")
+                    ops.append({"op": "stmt", "inst": ch.draw(len(insts), "caninst"), "code": ch.choice(SUB_CALLERS[n_], "cantext")})
                 continue
             inst = ch.draw(len(insts), "inst")
             if k == "add_sub":
